@@ -702,6 +702,10 @@ func (c *Ctx) BVBin(op string, a, b *Term) *Term {
 		if a.isBVLit() && a.val == 0 || b.isBVLit() && b.val == 0 {
 			return c.BV(0, w)
 		}
+		if !a.isBVLit() && !b.isBVLit() && a.id > b.id {
+			// canonical operand order: x*y and y*x are one term (no solver proves commutativity of a 64-bit multiplier cheaply)
+			a, b = b, a
+		}
 	case "bvand":
 		if a.isBVLit() && a.val == 0 || b.isBVLit() && b.val == 0 {
 			return c.BV(0, w)
@@ -937,6 +941,51 @@ func (c *Ctx) Subst(t *Term, m map[*Term]*Term) *Term {
 		return r
 	}
 	return rec(t)
+}
+
+// AbstractMul rewrites every multiplication of two non-constant bit-vectors into an uninterpreted function
+// (with the instance of commutativity for that application as an extra fact). The result is weaker than the
+// input: an unsat answer for it proves the original unsatisfiable, a sat answer means nothing.
+func (c *Ctx) AbstractMul(ts []*Term) (out []*Term, facts []*Term, changed bool) {
+	memo := map[*Term]*Term{}
+	seenApp := map[*Term]bool{}
+	var rec func(t *Term) *Term
+	rec = func(t *Term) *Term {
+		if len(t.args) == 0 {
+			return t
+		}
+		if r, ok := memo[t]; ok {
+			return r
+		}
+		nargs := make([]*Term, len(t.args))
+		ch := false
+		for i, a := range t.args {
+			nargs[i] = rec(a)
+			if nargs[i] != a {
+				ch = true
+			}
+		}
+		var r *Term
+		if t.op == "bvmul" && bvWidth(t.sort) > 0 && bvWidth(t.sort) <= 64 && !nargs[0].isBVLit() && !nargs[1].isBVLit() {
+			name := fmt.Sprintf("absmul%d", bvWidth(t.sort))
+			r = c.UF(name, t.sort, nargs[0], nargs[1])
+			changed = true
+			if !seenApp[r] && !r.open {
+				seenApp[r] = true
+				facts = append(facts, c.Eq(r, c.UF(name, t.sort, nargs[1], nargs[0])))
+			}
+		} else if !ch {
+			r = t
+		} else {
+			r = c.rebuild(t, nargs)
+		}
+		memo[t] = r
+		return r
+	}
+	for _, t := range ts {
+		out = append(out, rec(t))
+	}
+	return
 }
 
 func (c *Ctx) rebuild(t *Term, a []*Term) *Term {
